@@ -81,8 +81,12 @@ def run_agg(tape, prop, tier):
             lat = tape.weighted([(5, "none"), (2, "10ms"), (2, "200ms"), (1, "before_flush"), (1, "after_flush"),
                                  (1, "very_late")])
             trades_spec.append((w, place, frac, lat))
+    # a second aggregator (another pair, possibly another bar length) alive in the same process, as on an exchange
+    # client that follows two markets; its bars are only looked at for cross-talk
+    companion = tape.choice([dur, max(1, dur // 5), dur * 2]) if tape.chance(0.3) else None
     res.sample = dict(kind="aggregator", bar_duration=dur, flush_delay=fd, skip_first_bar=skip, windows=nwin,
-                      start_offset=start_off, timer_lateness=late, trades=trades_spec[:12])
+                      start_offset=start_off, timer_lateness=late, companion_bar_duration=companion,
+                      trades=trades_spec[:12])
     wall0 = 1_700_000_000.0 - (1_700_000_000 % dur) + start_off
     pushed = []
     emitted = []
@@ -100,6 +104,27 @@ def run_agg(tape, prop, tier):
         async def on_bar(ev):
             emitted.append((loop.wall(), ev))
         d.subscribe(src, on_bar)
+        other_bars = []
+        other_trades = []
+        if companion:
+            other = bar.RealTimeTradesToBar(bs.Pair("ETH", "USD"), companion, skip_first_bar=False, flush_delay=fd)
+            other.on_error = lambda e_: None
+
+            async def on_other_bar(ev):
+                other_bars.append(ev.bar)
+            d.subscribe(other, on_other_bar)
+            res.probes["two_aggregators_alive"] += 1
+
+            async def other_feeder():
+                k = 0
+                while True:
+                    await asyncio.sleep(dur / 3.0)
+                    k += 1
+                    ts_ = bdt.utc_now()
+                    other.push_trade(ts_, D(5000 + k), D(7))
+                    other_trades.append((ts_, D(5000 + k)))
+            oft = asyncio.ensure_future(other_feeder())
+        out["other"] = (other_bars, other_trades)
         start = bdt.utc_now()
         first_begin = wbegin(start, dur)
         out["start"] = start
@@ -148,6 +173,8 @@ def run_agg(tape, prop, tier):
         except (Exception, asyncio.CancelledError) as e_:
             out["o"] = f"raised {type(e_).__name__}: {e_}"
         ft.cancel()
+        if companion:
+            oft.cancel()
         return loop
 
     try:
@@ -163,7 +190,15 @@ def run_agg(tape, prop, tier):
     except SimLimit as e_:
         out["o"] = f"limit {e_}"
 
-    return judge_agg(res, out, dur, fd, skip, late, late_max, nwin, trades_spec, pushed, emitted, errs, "agg")
+    r = judge_agg(res, out, dur, fd, skip, late, late_max, nwin, trades_spec, pushed, emitted, errs, "agg")
+    # cross-talk: the companion's bars are made of the companion's trades only (prices >= 5000, amounts of 7)
+    ob, ot = out.get("other", ([], []))
+    for b in ob:
+        if b.low < 5000 or b.volume % 7 != 0 or b.pair.base_symbol != "ETH":
+            r.viol(PROP, "bar-content", "bar-content", f"bar of the second aggregator (ETH/USD, trades at 5000+, amount 7 each) has "
+                                                        f"low {b.low} volume {b.volume}: it contains trades pushed to the first one")
+            break
+    return r
 
 
 def judge_agg(res, out, dur, fd, skip, late, late_max, nwin, trades_spec, pushed, emitted, errs, kind, guard_extra=0.0):
